@@ -1,12 +1,12 @@
 """C05 plan."""
-from plan import R, D, stages
+from plan import R, D, T, stages
 import fuzzstage
 
 PLAN = dict(
     extra={"thorough": [fuzzstage.diff_stage(2, "C05")]},
     **stages(
-        quick=[(R, "quick", 16), (D, "small", 16)],
-        thorough=[(R, "thorough", 16), (D, "quick", 16)],
+        quick=[(R, "quick", 16), (D, "small", 16), (T, "small", 16)],
+        thorough=[(R, "thorough", 16), (D, "quick", 16), (T, "quick", 16)],
     ),
     rule=("a case is one brace-free, operator-free pattern (1-6 tokens: literals incl. non-ASCII, '*', '?', "
           "'[set]', '[!set]', ranges, stray ']', occasionally a truncated bracket) with ~30 names: two samples "
